@@ -79,6 +79,35 @@ def gen_history(rng, length, nreg=2):
     return lines
 
 
+def gen_churn(rng, length):
+    """state-aware histories on one map (the root or a nested one): keys are added, the first / the newest / a random *existing* key is
+    deleted and keys are added again, with keys/count/get/copy observations in between (insertion order must survive any of it)"""
+    base = rng.choice([b'', b'm.', b'l[1].', b'a.b.'])
+    pool = [pspec.quote_key(k) for k in rng.sample(KEYS, rng.randint(3, 7))]
+    live = []            # keys of the map in insertion order
+    lines = []
+    for _ in range(length):
+        x = rng.random()
+        if x < 0.40 or not live:
+            k = rng.choice(pool)
+            lines.append('pt 0 set %s' % vlib.hexbytes(base + k + b'=' + rng.choice(VALUES)))
+            if k not in live:
+                live.append(k)
+        elif x < 0.70:
+            k = rng.choice([live[-1], live[-1], live[0], rng.choice(live)])
+            lines.append('pt 0 delete %s' % vlib.hexbytes(base + k))
+            live.remove(k)
+        elif x < 0.85:
+            lines.append('pt 0 %s %s' % (rng.choice(['keys', 'keys', 'count', 'get_subtree']), vlib.hexbytes(base + b'{}' if base else b'{}')))
+        elif x < 0.92:
+            lines.append('pt 1 copy 0')
+            lines.append('pt 1 keys %s' % vlib.hexbytes(base + b'{}' if base else b'{}'))
+        else:
+            lines.append('pt 0 digest')
+    lines += ['pt 0 keys %s' % vlib.hexbytes(base + b'{}' if base else b'{}'), 'pt 0 digest', 'pt 1 digest', 'pt 0 free', 'pt 1 free', 'pt 0 live']
+    return lines
+
+
 def fmt_res(res):
     st, v = res
     if st == 'fail':
@@ -237,6 +266,8 @@ def run(chk):
     scripts += bounded_exhaustive(2 if quick else 3)
     for _ in range((200 if quick else 4000) * (5 if broken else 1)):
         scripts.append(gen_history(rng, 60 if quick else 200))
+    for _ in range((60 if quick else 1500) * (5 if broken else 1)):
+        scripts.append(gen_churn(rng, 30 if quick else 80))
     chk.rule = ('corpus + bounded-exhaustive histories (15-op alphabet, depth %d) + random histories over two roots: set/delete/get/type/count/'
                 'keys/get_subtree/set_subtree/copy/quote_key with descriptors from the full grammar (keys needing quotes, UTF-8, spaces, [n], [n+], '
                 '[+], trailing ., {}, []), values with =, #, newlines, and a malformed-descriptor stream' % (2 if quick else 3))
